@@ -23,6 +23,13 @@ pub struct SatCase {
     pub hook_fail_at: Option<u8>,
     /// 0: manual apply_rewrites loop, 1: Runner, 2: run_eqsat
     pub mode: u8,
+    /// manual loop only: each apply_rewrites call gets a single rule, cycling through the rule list (so that a step can
+    /// change nothing but, say, the size of an already non-trivial symmetry group)
+    #[serde(default)]
+    pub staged: bool,
+    /// Runner only: the hook unites the i-th and j-th inserted term at iteration k (a hook that changes the e-graph)
+    #[serde(default)]
+    pub hook_union: Option<(u8, u16, u16)>,
 }
 
 pub fn lookup_pattern<L: Language, N: Analysis<L>>(eg: &EGraph<L, N>, p: &Pattern<L>, subst: &Subst) -> Option<Option<AppliedId>> {
@@ -125,18 +132,27 @@ fn run_l<L: Language + 'static>(c: &SatCase, obs: &mut Obs) -> Result<(), String
             // manual loop: apply_rewrites == false  =>  nothing observable changed
             let rules = mk_rules();
             let mut iters = 0;
-            for _ in 0..iter_limit.max(1) {
+            let rounds = if c.staged { (iter_limit.max(1)) * rules.len().max(1) + 2 } else { iter_limit.max(1) };
+            let mut quiet = 0;
+            for round in 0..rounds {
                 if eg.total_number_of_nodes() > 600 {
                     break;
                 }
                 let tr = tracked(&eg, &st.terms, &nm);
                 let before = fingerprint(&eg, &tr);
-                let ch = apply_rewrites(&mut eg, &rules);
+                let ch = if c.staged { apply_rewrites(&mut eg, std::slice::from_ref(&rules[round % rules.len()])) } else { apply_rewrites(&mut eg, &rules) };
                 let after = fingerprint(&eg, &tr);
                 iters += 1;
                 obs.cmp(1);
                 if !ch && before != after {
                     return Err(format!("apply_rewrites returned false but the e-graph changed: {:?} -> {:?}", before, after));
+                }
+                if c.staged {
+                    // saturated only when every single rule was quiet once in a row
+                    quiet = if ch { 0 } else { quiet + 1 };
+                    if quiet < rules.len() {
+                        continue;
+                    }
                 }
                 if !ch {
                     obs.label("saturated");
@@ -145,21 +161,37 @@ fn run_l<L: Language + 'static>(c: &SatCase, obs: &mut Obs) -> Result<(), String
                     break;
                 }
             }
+            if c.staged {
+                obs.label("staged-single-rules");
+            }
             obs.nontrivial = iters >= 2;
         }
         1 => {
             let fail_at = c.hook_fail_at.map(|x| x as usize);
             let counter = Rc::new(RefCell::new(0usize));
             let counter2 = counter.clone();
+            let hu = c.hook_union.and_then(|(k, i, j)| {
+                let n = st.handles.len();
+                if n == 0 {
+                    None
+                } else {
+                    Some((k as usize, st.handles[(i as usize * n) >> 16].clone(), st.handles[(j as usize * n) >> 16].clone()))
+                }
+            });
             let mut runner: Runner<L, (), (), String> = Runner::new(())
                 .with_egraph(eg)
                 .with_iter_limit(iter_limit)
                 .with_node_limit(node_limit)
                 .with_time_limit(Duration::from_secs(100_000))
-                .with_hook(move |_r| {
+                .with_hook(move |r| {
                     let mut k = counter2.borrow_mut();
                     let cur = *k;
                     *k += 1;
+                    if let Some((at, a, b)) = &hu {
+                        if *at == cur {
+                            r.egraph.union(a, b);
+                        }
+                    }
                     if Some(cur) == fail_at {
                         Err(format!("hook failed at {}", cur))
                     } else {
@@ -173,6 +205,9 @@ fn run_l<L: Language + 'static>(c: &SatCase, obs: &mut Obs) -> Result<(), String
             if rep.egraph_nodes != eg.total_number_of_nodes() {
                 return Err(format!("report.egraph_nodes = {} but the e-graph has {} e-nodes", rep.egraph_nodes, eg.total_number_of_nodes()));
             }
+            if c.hook_union.is_some() {
+                obs.label("hook-changes-egraph");
+            }
             if rep.iterations > iter_limit + 2 {
                 return Err(format!("the run took {} iterations with an iteration limit of {}", rep.iterations, iter_limit));
             }
@@ -182,8 +217,12 @@ fn run_l<L: Language + 'static>(c: &SatCase, obs: &mut Obs) -> Result<(), String
             match &rep.stop_reason {
                 StopReason::Saturated => {
                     obs.label("saturated");
-                    let tr = tracked(&eg, &st.terms, &nm);
-                    saturated_check(&mut eg, &rules_txt, &tr, obs)?;
+                    // a hook that changed the e-graph in the last iteration may have enabled new matches: only then is a non-idle extra round legitimate
+                    let hook_in_last = c.hook_union.map(|(k, _, _)| k as usize + 1 == rep.iterations).unwrap_or(false);
+                    if !hook_in_last {
+                        let tr = tracked(&eg, &st.terms, &nm);
+                        saturated_check(&mut eg, &rules_txt, &tr, obs)?;
+                    }
                 }
                 StopReason::NodeLimit => {
                     obs.label("node-limit");
@@ -260,7 +299,7 @@ fn run_l<L: Language + 'static>(c: &SatCase, obs: &mut Obs) -> Result<(), String
             obs.nontrivial = rounds >= 2 && !matches!(rep.stop_reason, StopReason::Other(_));
         }
     }
-    if rules_txt.iter().any(|r| ["f2-sym", "g3-rot", "f-sym", "sum2-swap", "sum-swap", "f2-v", "fg", "gh", "hf"].contains(&r.name)) {
+    if rules_txt.iter().any(|r| ["f2-sym", "g3-rot", "g3-swap", "g3-drop", "f-sym", "sum2-swap", "sum-swap", "f2-v", "fg", "gh", "hf"].contains(&r.name)) {
         obs.label("symmetry-or-redundancy-only-rule");
     }
     Ok(())
@@ -279,8 +318,10 @@ fn strategy(lang: LangId) -> BoxedStrategy<SatCase> {
         prop_oneof![Just(0u16), Just(1), Just(4), Just(12), Just(40), Just(400)],
         proptest::option::weighted(0.3, 0u8..4),
         0u8..3,
+        any::<bool>(),
+        proptest::option::weighted(0.3, (0u8..3, any::<u16>(), any::<u16>())),
     )
-        .prop_map(|(base, rules, iter_limit, node_limit, hook_fail_at, mode)| SatCase { base, rules, iter_limit, node_limit, hook_fail_at, mode })
+        .prop_map(|(base, rules, iter_limit, node_limit, hook_fail_at, mode, staged, hook_union)| SatCase { base, rules, iter_limit, node_limit, hook_fail_at, mode, staged, hook_union })
         .boxed()
 }
 
@@ -295,12 +336,14 @@ pub fn property(tier: Tier) -> Property {
             render: |c: &SatCase| {
                 let pool = rule_pool(c.base.lang);
                 format!(
-                    "{} rules=[{}] iter_limit={} node_limit={} hook_fail_at={:?} mode={}",
+                    "{} rules=[{}] iter_limit={} node_limit={} hook_fail_at={:?} staged={} hook_union={:?} mode={}",
                     c.base.render(),
                     c.rules.iter().map(|i| pool[*i % pool.len()].name).collect::<Vec<_>>().join(","),
                     c.iter_limit,
                     c.node_limit,
                     c.hook_fail_at,
+                    c.staged,
+                    c.hook_union,
                     ["apply_rewrites loop", "Runner", "run_eqsat"][(c.mode % 3) as usize]
                 )
             },
